@@ -27,6 +27,12 @@ def forced_specs(seed, tier):
                 sp = gen.make_spec(rng, D=D, geom=rng.choice(["box", "unbounded", "tight"]), mode=mode, cons="sliver", opt_loc="inside")
                 sp["options"] = {"n_search": rng.choice([32, 64]), "max_fun_evals": (25 if mode == "det" else 60) + 10 * D}
                 jobs.append(("es_all_infeasible", sp, {}))
+        # (a2) every pairing of variable kinds in ONE problem: log-transformed next to fully unbounded, bounded next to unbounded, log next to bounded
+        for geom in ("log_unbounded", "mixed_unbounded", "mixedlog"):
+            for mode in ("det", "decl", "he") if geom == "log_unbounded" else ("det",):
+                sp = gen.make_spec(rng, D=rng.choice([2, 3]), geom=geom, mode=mode, cons=None, opt_loc="inside")
+                sp["options"] = {"n_search": 32, "max_fun_evals": (20 if mode == "det" else 55) + 5 * sp["D"]}
+                jobs.append(("mixed_variable_kinds", sp, {}))
         # (b) repeated observations under specified noise (coarse mesh, low dimension)
         for D in (1, 1, 2):
             sp = gen.make_spec(rng, D=D, geom=rng.choice(["box", "tight", "logbox"]), mode="he", cons=None)
